@@ -37,3 +37,23 @@ def finish(chk, col, pid):
     for c in sorted(col.classes, key=str)[:6]:
         chk.sample(list(c))
     return chk.finish()
+
+
+def replay(pid, path):
+    """Re-run the scenario recorded in a replay file against the current tree and judge it again."""
+    rp = json.load(open(path))["replay"]
+    chk = core.Check(pid, "quick", "model_checking")
+    bindir = T.build(release=rp.get("release", False))
+    col = S.Collector(chk)
+    if rp.get("kind") == "probe-run":
+        r = T.run_probe(chk, bindir, "replay", rp["script"], strace=rp.get("strace", False), inject=rp.get("inject"), timeout=300)
+        col.add(r, rp.get("mode", "free"))
+        col.flush("replay")
+    else:
+        from checks import thr_model as M
+        M.replay_schedule(chk, col, bindir, rp)
+    hits = [f for f in col.findings if f.prop() == pid]
+    for f in hits:
+        print("replayed:", f.what())
+    print("replay of %s: %d rule(s) of %s broken (recorded: %s)" % (path, len(hits), pid, rp.get("rule")))
+    return 1 if hits else 0
